@@ -75,7 +75,13 @@ CONFIG = dict(
                    "the switch-point discipline of CPython's eval loop is an assumption of M_Snapshot",
                    "switch points P1b and P4 of the model are not driven by the harness (no checkpoint there); the "
                    "theorems cover them, the correspondence keeps them at Stay",
-                   "_lowlevel_cpython_310.py (3.8-3.10 block-stack reader) has no model; 3.12 only"],
+                   "_lowlevel_cpython_310.py (3.8-3.10 block-stack reader) has no model; 3.12 only",
+                   "'exact when blocked' is not a separate Coq theorem here: for a quiet target it is the instance env = Stay of "
+                   "C07_snapshot_consistent_or_rejected (Example ex_run_quiet), and it is checked end-to-end by the blocked-thread "
+                   "cases (own f_back walk + manager truth log) and the per-site program-derived stack oracle; slice arithmetic "
+                   "and context recovery themselves belong to C04 / C02",
+                   "boundary positions of exception-table ranges (f_lasti == start or == end of an entry with stacktop == -1) are "
+                   "not reachable by the generated park sites: a `<=` -> `<` mutation of the handler-depth scan is not detected here"],
     timeout={"quick": 900, "thorough": 5400},
     NOTES=("The model's environment is indexed by (attempt, switch point) instead of a global step counter. "
            "While building this property the A-B-A defect F13 was found in the protocol and fixed in /repo (98ca0a6); "
